@@ -118,6 +118,37 @@ type NativeOutcome struct {
 	Raw     string
 }
 
+// RunRandom executes harness natively n times with pseudo-random inputs
+// (seeds seed0..seed0+n-1) and tallies the outcomes.
+func (n *Native) RunRandom(bin, harness string, count int, seed0 int) (ok, assumeFailed int, failures []string) {
+	for i := 0; i < count; i++ {
+		ctx, cancel := context.WithTimeout(context.Background(), 2*time.Minute)
+		cmd := exec.CommandContext(ctx, bin, "-test.run", "^TestVerifReplay$", "-test.count", "1", "-test.v")
+		cmd.Dir = filepath.Dir(bin)
+		cmd.Env = append(os.Environ(), "VERIF_HARNESS="+harness, "VERIF_REPLAY=", fmt.Sprintf("VERIF_RANDOM=%d", seed0+i+1))
+		out, _ := cmd.CombinedOutput()
+		cancel()
+		outcome := ""
+		for _, l := range strings.Split(string(out), "\n") {
+			if strings.HasPrefix(l, "VERIF-OUTCOME ") {
+				outcome = strings.TrimPrefix(l, "VERIF-OUTCOME ")
+			}
+		}
+		switch {
+		case outcome == "VERIF-OK":
+			ok++
+		case strings.HasPrefix(outcome, "VERIF-ASSUME-FAILED"):
+			assumeFailed++
+		default:
+			if outcome == "" {
+				outcome = "no outcome: " + tail(string(out), 300)
+			}
+			failures = append(failures, fmt.Sprintf("seed %d: %s", seed0+i+1, outcome))
+		}
+	}
+	return
+}
+
 // Run executes harness natively with the given assignment file ("" = none).
 func (n *Native) Run(bin, harness, replay string, repeat int) (NativeOutcome, error) {
 	ctx, cancel := context.WithTimeout(context.Background(), 5*time.Minute)
